@@ -3734,7 +3734,7 @@ def check_C19(run):
         shutil.rmtree(d, ignore_errors=True); sb.close()
     run.cov['panic_classes_seen'] = sorted(f'{a}:{b}' for a, b in panic_seen)
     run.cov['trusted_base'] = C.GLOBAL_TRUST + ['dev-profile integer semantics (overflow checks on) is what the harness and the suite run; the release profile differs only where an overflow occurs',
-                                                'ELF64: round trip and preservation are theorems for every image meeting the decidable predicate ValidElf (evaluated on the generated images, on a clang-linked executable and (thorough) on the stripped rjrssync binary); PE: the round trip is a theorem for every image meeting ValidPe (evaluated on the generated images); PARTIAL: the PE preservation statement is carried by the byte-exact correspondence + structural oracle, not by a Lean theorem; Windows loading of the PE result cannot be exercised here (no PE can run)',
+                                                'ELF64: round trip and preservation are theorems for every image meeting the decidable predicate ValidElf (evaluated on the generated images, on a clang-linked executable and (thorough) on the stripped rjrssync binary); PE: round trip and preservation are theorems for every image meeting ValidPe (evaluated on the generated images); images outside the two layout predicates are covered by the byte-exact correspondence + structural oracle only; Windows loading of the PE result cannot be exercised here (no PE can run)',
                                                 'deployment of the augmented binary through fake scp + handshake is covered by C15\'s launch matrix']
 
 
